@@ -131,11 +131,7 @@ package ledger
 //@ define wfPosting(p Posting) bool = p.Amount != nil && val(p.Amount) >= 0 && validAddr(p.Source) && validAddr(p.Destination) && validAsset(p.Asset)
 //@ define wfPostings(ps []Posting) bool = forall i int :: {ps[i]} 0 <= i && i < len(ps) ==> wfPosting(ps[i])
 
-//@ assumed func accounts.ValidateAddress(addr string) (r bool)
-//@   ensures r == validAddr(addr)
-
-//@ assumed func assets.IsValid(v string) (r bool)
-//@   ensures r == validAsset(v)
+// accounts.ValidateAddress and assets.IsValid are verified in their own packages (pkg/accounts, pkg/assets).
 
 //@ func (p Postings) Validate() (idx int, err error)
 //@   property C25 C28 C38
